@@ -897,7 +897,7 @@ func genAsmTables(repo, out string) {
 func genAsmScalar(repo, out string) {
 	var b strings.Builder
 	b.WriteString(header)
-	b.WriteString("namespace SJ.Generated\n\n")
+	b.WriteString("set_option linter.unusedVariables false\nnamespace SJ.Generated\n\n")
 
 	// finalize_structurals, AVX2 form: inputs DI=structurals SI=whitespace DX=quote_mask CX=quote_bits, (R8)=prev
 	fin := func(lean, text string, kregs bool) {
